@@ -765,6 +765,7 @@ IB__adapt__(PyObject* self, PyObject* obj)
         implied = ((SB*)decl)->_implied;
         if (implied == NULL) {
             Py_DECREF(decl);
+            PyErr_SetString(PyExc_AttributeError, "_implied");
             return NULL;
         }
 
